@@ -37,6 +37,16 @@ def run(tier, seed):
             raise core.ToolError(f"MC_C15/{cfg}: ProjectionKeepsValidity violated on the specification, or TLC error:\n" + r.stdout[-3000:])
         ctx.add_tlc(r)
         cases += [c for c in r.cases if not c["faults"]]
+    # enums once more with a default case on B's From-side instruction: it belongs to B's impls whether or not A has literals / patterns
+    import copy
+    extra = []
+    for c in cases:
+        if c["in"]["dt"] == "enum":
+            d = copy.deepcopy(c)
+            for k in ("in", "pa", "pb"):
+                d[k]["dcB"] = True
+            extra.append(d)
+    cases += extra
     inp = [{"id": i, "srcs": [c15.concretize(c["in"], True), c15.concretize(c["pa"], True), c15.concretize(c["pb"], True)]} for i, c in enumerate(cases)]
     res = core.expand(inp, "syn1", tokens=True)
     trace, detail, vd, skipped = [], {}, {}, {}
@@ -71,7 +81,7 @@ def run(tier, seed):
     ctx.cov["distinct_nontrivial"] = len({json.dumps(c["in"], sort_keys=True) for c in cases if c["in"] != c["pa"] or c["in"] != c["pb"]})
     ctx.cov["rule"] = ("TLC enumerates structs and enums mapped to counterparts A and B (map + into_existing for A, map + try_into for B) x <=2 type-level "
                        "instructions (ghosts, where_clause, child_parents) x one member with <=2 instructions (map, ghost, child, parent / literal, pattern, "
-                       "type_hint), each default or dedicated to A or B with a payload that names its counterpart; inputs the specification finds faultless "
+                       "type_hint), each default or dedicated to A or B with a payload that names its counterpart, enums also with a default case on B's instruction; inputs the specification finds faultless "
                        "are expanded jointly and projected to each counterpart; one evaluation = the impls for one counterpart in the joint expansion vs. "
                        "the expansion of the projection (multiset of impl token strings).")
     ctx.cov["exhaustive"] = True
